@@ -198,8 +198,8 @@ func startProxy(config ProxyConfig, preConfigRoute *PreConfigRoute, resolver *Pr
 			listen.BackendLocalPort,
 			listen.Backends,
 			listen.Dests,
-			listen.defRoute,
 			!listen.NoReceived,
+			listen.defRoute,
 			proxy,
 			selfLearnRoute,
 			proxy)
